@@ -28,7 +28,7 @@ theorem aabb_lower_bound (b : Box) (p q : P3) (hq : b.Contains q = true) :
   aabb_lower_bound_aux b p q hq
 
 example : (⟨⟨0, 0, 0⟩, ⟨1, 1, 1⟩⟩ : Box).Contains ⟨1, 0, -1⟩ = true := by
-  rw [C17.aabb_contains_iff]; norm_num [AABB.Min, AABB.Max, V3.Sub, V3.Add]
+  rw [Tree.aabb_contains_iff]; norm_num [AABB.Min, AABB.Max, V3.Sub, V3.Add]
 
 /-- `Contains` is monotone in the box -/
 theorem aabb_contains_mono {a b : Box} (h : BoxSub a b) (v : P3) (hv : a.Contains v = true) :
@@ -45,16 +45,29 @@ theorem slab_mono {a b : Box} (h : BoxSub a b) (o d : P3) (mn mx : ℝ)
   Tree.slab_mono h o d mn mx ha
 
 example : BoxSub (⟨⟨0, 0, 0⟩, ⟨1, 1, 1⟩⟩ : Box) ⟨⟨1, 0, 0⟩, ⟨2, 1, 3⟩⟩ := by
-  constructor <;> rw [C17.aabb_contains_iff] <;> norm_num [AABB.Min, AABB.Max, V3.Sub, V3.Add]
+  constructor <;> rw [Tree.aabb_contains_iff] <;> norm_num [AABB.Min, AABB.Max, V3.Sub, V3.Add]
+
+
+/-- `slab_sound`: if the ray `o + t·d` (no direction component zero) is inside box `a` at some parameter `t` of a
+    non-empty range `[mn, mx]`, the slab test (ε-widened, strict) accepts `a` for that range.  Together with
+    `slab_mono`: it accepts every box containing `a`.  This is what justifies the primitive hypothesis of the BVH
+    theorems for a primitive whose hit point lies in its own box. -/
+theorem slab_sound (a b : Box) (hab : BoxSub a b) (o d : P3) (mn mx t : ℝ)
+    (hd : d.x ≠ 0 ∧ d.y ≠ 0 ∧ d.z ≠ 0) (hr : mn < mx) (h1 : mn ≤ t) (h2 : t ≤ mx)
+    (hin : a.Contains (o.Add (d.Scale t)) = true) : intersectsRayInRange b o d mn mx = true :=
+  Tree.slab_mono hab o d mn mx (slab_sound_aux a o d mn mx t hd hr h1 h2 hin)
+
+example : (⟨⟨0, 0, 0⟩, ⟨1, 1, 1⟩⟩ : Box).Contains ((⟨-3, -3, -3⟩ : P3).Add ((⟨1, 1, 1⟩ : P3).Scale 3)) = true := by
+  rw [Tree.aabb_contains_iff]; norm_num [AABB.Min, AABB.Max, V3.Sub, V3.Add, V3.Scale]
 
 /-- growing a box by `EncapsulateBounds` keeps what it contained and adds the other box -/
 theorem aabb_encapsulate_contains (a b : Box) :
     BoxSub b (a.EncapsulateBounds b) ∧ ∀ v, a.Contains v = true → (a.EncapsulateBounds b).Contains v = true := by
   refine ⟨⟨?_, ?_⟩, ?_⟩
-  · exact C17.aabb_encapsulatePoint_mono _ _ _ (C17.aabb_encapsulatePoint_contains _ _)
-  · exact C17.aabb_encapsulatePoint_contains _ _
+  · exact Tree.aabb_encapsulatePoint_mono _ _ _ (Tree.aabb_encapsulatePoint_contains _ _)
+  · exact Tree.aabb_encapsulatePoint_contains _ _
   · intro v hv
-    exact C17.aabb_encapsulatePoint_mono _ _ _ (C17.aabb_encapsulatePoint_mono _ _ _ hv)
+    exact Tree.aabb_encapsulatePoint_mono _ _ _ (Tree.aabb_encapsulatePoint_mono _ _ _ hv)
 
 /-! ### the invariant -/
 
@@ -183,19 +196,22 @@ theorem seg_cp_cases (a b v : P3) :
     · right; right
       exact ⟨t, le_of_lt (not_le.mp h0), le_of_lt (not_le.mp h1), by simp [h1, h0]⟩
 
-/-- the closest point of each modelled element kind lies in the element's own bounding box -/
+/-- the closest point of a point / segment / well-formed box element lies in the element's own bounding box
+    (not proved for triangles: `scopedTri.ClosestPoint`) -/
 theorem prim_closest_in_box (p : Prim ℝ) (v : P3)
-    (hbox : ∀ b, p = .box b → 0 ≤ b.extents.x ∧ 0 ≤ b.extents.y ∧ 0 ≤ b.extents.z) :
+    (hbox : ∀ b, p = .box b → 0 ≤ b.extents.x ∧ 0 ≤ b.extents.y ∧ 0 ≤ b.extents.z)
+    (hnt : ∀ a b c, p ≠ .tri a b c) :
     p.boundingBox.Contains (p.closestPoint v) = true := by
   cases p with
+  | tri a b c => exact absurd rfl (hnt a b c)
   | point q =>
-    rw [C17.aabb_contains_iff]
+    rw [Tree.aabb_contains_iff]
     simp [Prim.boundingBox, Prim.closestPoint, NewAABB, AABB.Min, AABB.Max, V3.Sub, V3.Add, V3.Scale, V3.Zero]
   | box b =>
     obtain ⟨h1, h2, h3⟩ := hbox b rfl
-    exact C17.aabb_closestPoint_in_box b v h1 h2 h3
+    exact Tree.aabb_closestPoint_in_box b v h1 h2 h3
   | seg a b =>
-    rw [C17.aabb_contains_iff]
+    rw [Tree.aabb_contains_iff]
     have hmin : (aabbFromPoints2 a b).Min = ⟨min b.x a.x, min b.y a.y, min b.z a.z⟩ := by
       simp only [aabbFromPoints2, NewAABB, AABB.Min, V3.Sub, V3.Add, V3.Scale, V3.New, RS.lit_eq]
       congr 1 <;> push_cast <;> ring
@@ -260,21 +276,39 @@ theorem seg_box_max (a b : P3) : (aabbFromPoints2 a b).Max = ⟨max b.x a.x, max
   simp only [aabbFromPoints2, NewAABB, AABB.Max, V3.Sub, V3.Add, V3.Scale, V3.New, RS.lit_eq]
   congr 1 <;> push_cast <;> ring
 
-/-- the bounding boxes of points and segments are well formed (contain their own corners) -/
+theorem tri_box_min (a b c : P3) : (aabbFromPoints3 a b c).Min =
+    ⟨min c.x (min b.x a.x), min c.y (min b.y a.y), min c.z (min b.z a.z)⟩ := by
+  simp only [aabbFromPoints3, NewAABB, AABB.Min, V3.Sub, V3.Add, V3.Scale, V3.New, RS.lit_eq]
+  congr 1 <;> push_cast <;> ring
+
+theorem tri_box_max (a b c : P3) : (aabbFromPoints3 a b c).Max =
+    ⟨max c.x (max b.x a.x), max c.y (max b.y a.y), max c.z (max b.z a.z)⟩ := by
+  simp only [aabbFromPoints3, NewAABB, AABB.Max, V3.Sub, V3.Add, V3.Scale, V3.New, RS.lit_eq]
+  congr 1 <;> push_cast <;> ring
+
+/-- the bounding boxes of points, segments and triangles are well formed (contain their own corners) -/
 theorem prim_box_wf (p : Prim ℝ) (hbox : ∀ b, p = .box b → 0 ≤ b.extents.x ∧ 0 ≤ b.extents.y ∧ 0 ≤ b.extents.z) :
     BoxSub p.boundingBox p.boundingBox := by
   cases p with
   | point q =>
-    constructor <;> rw [C17.aabb_contains_iff] <;>
+    constructor <;> rw [Tree.aabb_contains_iff] <;>
       simp [Prim.boundingBox, NewAABB, AABB.Min, AABB.Max, V3.Sub, V3.Add, V3.Scale, V3.Zero]
   | seg a b =>
-    constructor <;> rw [C17.aabb_contains_iff] <;>
+    constructor <;> rw [Tree.aabb_contains_iff] <;>
       simp [Prim.boundingBox, seg_box_min, seg_box_max]
   | box b =>
     obtain ⟨h1, h2, h3⟩ := hbox b rfl
-    constructor <;> rw [C17.aabb_contains_iff] <;>
+    constructor <;> rw [Tree.aabb_contains_iff] <;>
       simp only [Prim.boundingBox, AABB.Min, AABB.Max, V3.Sub, V3.Add] <;>
       refine ⟨?_, ?_, ?_, ?_, ?_, ?_⟩ <;> linarith
+  | tri a b c =>
+    have m3 : ∀ x y z : ℝ, min z (min y x) ≤ max z (max y x) :=
+      fun x y z => le_trans (min_le_left _ _) (le_max_left _ _)
+    constructor <;> rw [Tree.aabb_contains_iff] <;>
+      simp only [Prim.boundingBox, tri_box_min, tri_box_max] <;>
+      exact ⟨by first | exact le_rfl | exact m3 _ _ _, by first | exact le_rfl | exact m3 _ _ _,
+        by first | exact le_rfl | exact m3 _ _ _, by first | exact le_rfl | exact m3 _ _ _,
+        by first | exact le_rfl | exact m3 _ _ _, by first | exact le_rfl | exact m3 _ _ _⟩
 
 theorem mem_mkElems {ps : List (Prim ℝ)} {e : Elem ℝ} (he : e ∈ mkElems ps) :
     e.prim ∈ ps ∧ e.box = e.prim.boundingBox := by
@@ -382,6 +416,46 @@ theorem bvh_hit_eq_hitlist_any_order [LinearOrder K] (sub : B → B → Prop) (b
   rw [bvh_hit_eq_list sub boxH slab primHit hmono hprim t ht mn mx]
   exact (listHit_congr_mem (fun h => f h mn) primHit mn (fun h mx => hc h mn mx) objs t.leaves hobjs mx).symm
 
+
+theorem boxSub_trans {a b c : Box} (h1 : BoxSub a b) (h2 : BoxSub b c) : BoxSub a c :=
+  ⟨contains_mono h2 _ h1.1, contains_mono h2 _ h1.2⟩
+
+/-- `NewBVHTree` (any axis choices, any outcome of the unstable sort: `reorder` is an arbitrary function returning a
+    permutation) builds, for every non-empty object list, a tree whose boxes cover (`BInv`) and whose primitives
+    are exactly the given objects. -/
+theorem bvh_build_covers (sub : B → B → Prop) (boxH : H → B) (union : B → B → B) (reorder : List H → List H)
+    (hre : ∀ l, (reorder l).Perm l) (hun : ∀ a b, sub a (union a b) ∧ sub b (union a b))
+    (htrans : ∀ a b c, sub a b → sub b c → sub a c)
+    (hs : List H) (hne : hs ≠ []) (hrefl : ∀ h ∈ hs, sub (boxH h) (boxH h)) :
+    ∃ t, bvhBuild reorder boxH union hs.length hs = some t ∧ BInv sub boxH t ∧ (∀ h, h ∈ t.leaves ↔ h ∈ hs) := by
+  obtain ⟨t, h1, h2, h3, _⟩ := bvhBuild_spec sub boxH union reorder hre hun htrans hs.length hs hne le_rfl hrefl
+  exact ⟨t, h1, h2, h3⟩
+
+/-- the box a BVH node gets: `NewEmptyAABB` + two `EncapsulateBounds` (bvh.go:108-110) -/
+noncomputable def bvhUnion (a b : Box) : Box := ((NewEmptyAABB : Box).EncapsulateBounds a).EncapsulateBounds b
+
+/-- End to end for the BVH with the real box code: for every non-empty list of primitives with well-formed boxes,
+    every axis/sort outcome, every ray and range, `BVHNode.Hit` on the built tree = `HitList.Hit` on the
+    original list (flag and nearest distance), for primitives that hit only inside their box and report
+    their first hit exactly when it is within the range. -/
+theorem bvh_built_hit_eq_hitlist (boxH : H → Box) (reorder : List H → List H) (hre : ∀ l, (reorder l).Perm l)
+    (o d : P3) (f : H → ℝ → Option ℝ) (primHit : H → ℝ → ℝ → Option ℝ)
+    (hprim : ∀ h mn mx dist, primHit h mn mx = some dist → intersectsRayInRange (boxH h) o d mn mx = true)
+    (hc : ∀ h mn mx, primHit h mn mx = (f h mn).bind (fun x => if x ≤ mx then some x else none))
+    (objs : List H) (hne : objs ≠ []) (hwf : ∀ h ∈ objs, BoxSub (boxH h) (boxH h)) (mn mx : ℝ) :
+    ∃ t, bvhBuild reorder boxH bvhUnion objs.length objs = some t ∧
+      t.hit (fun b lo hi => intersectsRayInRange b o d lo hi) primHit mn mx = listHit primHit objs mn mx := by
+  obtain ⟨t, h1, h2, h3⟩ := bvh_build_covers BoxSub boxH bvhUnion reorder hre
+    (fun a b => by
+      unfold bvhUnion
+      have e1 := aabb_encapsulate_contains (NewEmptyAABB : Box) a
+      have e2 := aabb_encapsulate_contains ((NewEmptyAABB : Box).EncapsulateBounds a) b
+      exact ⟨⟨e2.2 _ e1.1.1, e2.2 _ e1.1.2⟩, e2.1⟩)
+    (fun _ _ _ => boxSub_trans) objs hne hwf
+  refine ⟨t, h1, ?_⟩
+  exact bvh_hit_eq_hitlist_any_order BoxSub boxH _ f primHit
+    (fun _ _ mn mx hs ha => Tree.slab_mono hs o d mn mx ha) hprim hc t h2 objs (fun h => (h3 h).symm) mn mx
+
 /-- a covering BVH over two "primitives" on the integers (box = interval, slab = overlap with the range) -/
 example : BInv (fun (a b : Int × Int) => b.1 ≤ a.1 ∧ a.2 ≤ b.2) (fun (h : Int × Int) => h)
     (Bvh.node (0, 9) (.leaf (0, 3)) (.leaf (5, 9))) := by
@@ -399,7 +473,7 @@ noncomputable def exTree : Oct Box (Elem ℝ) :=
 example : Covers exTree := by
   have sub : ∀ a b : Box, (b.Min.x ≤ a.Min.x ∧ b.Min.y ≤ a.Min.y ∧ b.Min.z ≤ a.Min.z ∧ a.Min.x ≤ b.Max.x ∧ a.Min.y ≤ b.Max.y ∧ a.Min.z ≤ b.Max.z) →
       (b.Min.x ≤ a.Max.x ∧ b.Min.y ≤ a.Max.y ∧ b.Min.z ≤ a.Max.z ∧ a.Max.x ≤ b.Max.x ∧ a.Max.y ≤ b.Max.y ∧ a.Max.z ≤ b.Max.z) → BoxSub a b := by
-    intro a b h1 h2; exact ⟨(C17.aabb_contains_iff _ _).mpr h1, (C17.aabb_contains_iff _ _).mpr h2⟩
+    intro a b h1 h2; exact ⟨(Tree.aabb_contains_iff _ _).mpr h1, (Tree.aabb_contains_iff _ _).mpr h2⟩
   unfold Covers exTree
   refine Inv.node ?_ ?_
   · intro e he
